@@ -33,7 +33,70 @@ def _worker(job):
     rep["cell"] = cell["id"]
     rep["params"] = cell["params"]
     rep["cell_wall_s"] = time.time() - t0
-    return rep
+    # plain JSON text crosses the process boundary: a report that cannot be unpickled (deep terms, exotic objects) would
+    # kill the pool's result-handler thread in the parent and hang the whole run
+    try:
+        return json.dumps(rep, default=str)
+    except BaseException as e:  # noqa
+        return json.dumps({"fatal": f"report not serialisable: {type(e).__name__}: {e}", "cell": cell["id"], "params": cell["params"],
+                           "cell_wall_s": rep.get("cell_wall_s", 0.0)}, default=str)
+
+
+def _show(rep):
+    brief = {k: rep.get(k) for k in ("cell", "paths", "obligations", "proved", "refuted", "unknown", "by_mode")}
+    print("  cell", json.dumps(brief, default=str), flush=True)
+    for m in rep.get("inconclusive", [])[:3]:
+        print("     inconclusive:", str(m)[:300], flush=True)
+    for m in rep.get("errors", [])[:3]:
+        print("     ERROR:", str(m)[:600], flush=True)
+    if rep.get("fatal"):
+        print("     FATAL:", rep["fatal"], rep.get("tb", "")[-800:], flush=True)
+
+
+def _run_pool(modname, cells, seed, tier, jobs, verbose):
+    """apply_async + watchdog: a worker that dies (or wedges inside a C call) loses its task for good in
+    multiprocessing.Pool, so a run that makes no progress for STALL seconds is torn down, the unfinished cells are
+    retried once in a fresh pool, and what is still missing is reported as a harness error - never as a pass."""
+    stall = float(os.environ.get("VERIF_STALL_S", 420 if tier == "quick" else 2400))
+    ctx = mp.get_context("fork")
+    reports = []
+    todo = list(cells)
+    for attempt_no in (1, 2):
+        if not todo:
+            break
+        pool = ctx.Pool(jobs, maxtasksperchild=40)
+        pending = {c["id"]: (c, pool.apply_async(_worker, ((modname, c, seed, tier),))) for c in todo}
+        last = time.time()
+        while pending:
+            done = [k for k, (_, r) in pending.items() if r.ready()]
+            for k in done:
+                c, r = pending.pop(k)
+                try:
+                    rep = json.loads(r.get())
+                except BaseException as e:  # noqa
+                    rep = {"fatal": f"worker: {type(e).__name__}: {e}", "cell": c["id"], "params": c["params"], "cell_wall_s": 0.0}
+                reports.append(rep)
+                if verbose:
+                    _show(rep)
+            if done:
+                last = time.time()
+            elif time.time() - last > stall:
+                break
+            else:
+                time.sleep(0.05)
+        try:
+            pool.terminate()
+            pool.join()
+        except BaseException as e:  # noqa  (a dead handler thread makes terminate() assert)
+            print(f"  pool teardown: {type(e).__name__}: {e}", flush=True)
+        todo = [c for c, _ in pending.values()]
+        if todo:
+            print(f"  watchdog: no cell finished for {stall:.0f}s; {len(todo)} cell(s) unfinished after attempt {attempt_no}: "
+                  f"{[c['id'] for c in todo][:8]}", flush=True)
+    for c in todo:
+        reports.append({"fatal": "no result from the worker (lost or wedged) in two attempts", "cell": c["id"], "params": c["params"],
+                        "cell_wall_s": 0.0})
+    return reports
 
 
 def load_known(pid):
@@ -59,20 +122,7 @@ def run_property(modname, tier, seed, jobs=None, only=None, verbose=False):
     if only:
         cells = [c for c in cells if re.search(only, c["id"])]
     jobs = jobs or min(16, os.cpu_count() or 4)
-    ctx = mp.get_context("fork")
-    reports = []
-    with ctx.Pool(jobs, maxtasksperchild=40) as pool:
-        for rep in pool.imap_unordered(_worker, [(modname, c, seed, tier) for c in cells], chunksize=1):
-            reports.append(rep)
-            if verbose:
-                brief = {k: rep.get(k) for k in ("cell", "paths", "obligations", "proved", "refuted", "unknown", "by_mode")}
-                print("  cell", json.dumps(brief, default=str), flush=True)
-                for m in rep.get("inconclusive", [])[:3]:
-                    print("     inconclusive:", str(m)[:300], flush=True)
-                for m in rep.get("errors", [])[:3]:
-                    print("     ERROR:", str(m)[:600], flush=True)
-                if rep.get("fatal"):
-                    print("     FATAL:", rep["fatal"], rep.get("tb", "")[-800:], flush=True)
+    reports = _run_pool(modname, cells, seed, tier, jobs, verbose)
     reports.sort(key=lambda r: r["cell"])
     aux = mod.aux(tier, seed) if hasattr(mod, "aux") else None
     return finish(mod, pid, tier, seed, reports, aux, time.time() - t0)
